@@ -125,6 +125,12 @@ func script(suite string, args []string) {
 			fmt.Print(x.C.Dump())
 			continue
 		}
+		if a == "msgs" {
+			for _, m := range x.C.Net.Msgs {
+				fmt.Printf("  MSG %s state=%d %s -> %s\n", m.ID, m.State, m.ReqCanon(), m.RespCanon())
+			}
+			continue
+		}
 		e, err := sim.ParseEvent(a)
 		if err != nil {
 			fmt.Println(err)
